@@ -119,7 +119,7 @@ class Budget:
 def gamma_bound(cfg, teams):
     """An upper bound of |gamma| for the closed callback family (default: sqrt(var)/c <= 1)."""
     g = cfg.get("gamma", "default")
-    return {"mu_dep": 1.0, "team_sigma": 1.0, "default": 1.0, "zero": 0.0, "one": 1.0, "fifty": 50.0, "inv_k": 1.0, "half_default": 0.5, "inv_rank": 1.0, "inv_size": 1.0}[g]
+    return {"reentrant": 1.0, "mu_dep": 1.0, "team_sigma": 1.0, "default": 1.0, "zero": 0.0, "one": 1.0, "fifty": 50.0, "inv_k": 1.0, "half_default": 0.5, "inv_rank": 1.0, "inv_size": 1.0}[g]
 
 
 def compare_equal(bud: Budget, a, b, cfg, teams, what, mag_extra=0.0):
